@@ -3,12 +3,13 @@
 # seeded change applied (VERIF_REPO points the whole harness at it); /repo itself is not touched.
 P="$(realpath "$1")"; shift
 W=/tmp/mutrepo.$$
+O=/tmp/mutout.$$   # evidence and replay files of these runs: not /verif/evidence, not /verif/out
 git -C /repo worktree add -f --detach "$W" HEAD >/dev/null 2>&1 || exit 2
-trap 'git -C /repo worktree remove --force "$W"; echo "[scratch worktree removed]"' EXIT INT TERM
+trap 'git -C /repo worktree remove --force "$W"; rm -rf "$O"; echo "[scratch worktree removed]"' EXIT INT TERM
 git -C "$W" apply "$P" || { echo "patch does not apply"; exit 2; }
 cd /verif
 for c in "$@"; do
-  VERIF_REPO="$W" /usr/bin/time -f "  ($c %es)" ./check "$c" --tier quick > /tmp/mutant_$c.$$.log 2>&1
+  VERIF_REPO="$W" VERIF_OUT="$O" /usr/bin/time -f "  ($c %es)" ./check "$c" --tier quick > /tmp/mutant_$c.$$.log 2>&1
   rc=$?
   echo "== $c rc=$rc $(grep -c '^  failing' /tmp/mutant_$c.$$.log) failing lines; $(grep 'VIOLATION\|MACHINERY\|KNOWN' /tmp/mutant_$c.$$.log | head -3)"
   grep '^  failing' /tmp/mutant_$c.$$.log | sed 's/case=.*//' | cut -c1-220 | sort | uniq -c | sort -rn | head -4
